@@ -112,7 +112,14 @@ def obligations_for(methods):
             try:
                 pe, de = split_pure(f)
                 src = f"{ast.unparse(pe)} | {ast.unparse(de)}"
-                ok = ast.unparse(pe) == f"self.physical.{fn}()" and ast.unparse(de) == f"{fn}(self.default)"
+                d_src = ast.unparse(de)
+                direct = d_src == f"{fn}(self.default)"
+                # or through the helper _exp(x, f=exp): `try: return f(x) except OverflowError: return inf`
+                via_helper = d_src in ((f"_exp(self.default, {fn})",) + (("_exp(self.default)",) if fn == "exp" else ())) \
+                    and "_exp" in HELPERS and ast.unparse(HELPERS["_exp"].body[-1]).replace("\n", " ").split() == \
+                    "try: return f(x) except OverflowError: return inf".split() \
+                    and ast.unparse(HELPERS["_exp"].args) == "x: float, f: Callable[[float], float]=exp"
+                ok = ast.unparse(pe) == f"self.physical.{fn}()" and (direct or via_helper)
             except Unsupported as e:
                 src = str(e)
         yield (f"PatternedTensor.{m}.same_function_on_default_and_physical", qual, "syntactic", ok, None, src)
